@@ -201,6 +201,11 @@ class Sym:
             if math.isinf(v):
                 return Sym(R.zero, R.one, "inf")
             f = Fraction(v)
+            # stated idealisation: a float literal that is the correctly rounded value of a small rational (1/6, 0.1, ...)
+            # denotes that rational (IEEE arithmetic is treated as exact field arithmetic)
+            g = f.limit_denominator(10 ** 6)
+            if g != f and float(g) == v:
+                f = g
             return Sym(R.R(f.numerator), R.R(f.denominator))
         if isinstance(v, (complex, np.complexfloating)):
             v = complex(v)
